@@ -79,7 +79,7 @@ def main():
         if rc != 0:
             val["apply_output"] = out[-800:]
         else:
-            files = [l[6:] for l in open(os.path.join(src, "patch.diff")) if l.startswith("+++ b/")]
+            files = [l[6:].strip() for l in open(os.path.join(src, "patch.diff")) if l.startswith("+++ b/")]
             val["touched_files"] = files
             t = time.time()
             rc1, out1 = sh(democmd, cwd=wt, env=GOENV)
